@@ -360,7 +360,14 @@ func derefStruct(t types.Type) *types.Struct {
 // fieldLoad: if v (after strip) is a load of struct field f (x.f), return the
 // base value and the field.
 func fieldLoad(v ssa.Value) (base ssa.Value, f *types.Var, ok bool) {
-	v = strip(v)
+	xforms(v, func(x ssa.Value) bool {
+		base, f, ok = fieldLoad1(x)
+		return ok
+	})
+	return
+}
+
+func fieldLoad1(v ssa.Value) (base ssa.Value, f *types.Var, ok bool) {
 	if fl, isf := v.(*ssa.Field); isf {
 		st, _ := fl.X.Type().Underlying().(*types.Struct)
 		if st == nil {
@@ -383,7 +390,14 @@ func isFieldLoadOf(v ssa.Value, f *types.Var) bool {
 
 // callResult: if v is the (idx-th) result of a call, return the call.
 func callResult(v ssa.Value) (call *ssa.Call, idx int, ok bool) {
-	v = strip(v)
+	xforms(v, func(x ssa.Value) bool {
+		call, idx, ok = callResult1(x)
+		return ok
+	})
+	return
+}
+
+func callResult1(v ssa.Value) (call *ssa.Call, idx int, ok bool) {
 	switch x := v.(type) {
 	case *ssa.Call:
 		return x, 0, true
@@ -397,17 +411,23 @@ func callResult(v ssa.Value) (call *ssa.Call, idx int, ok bool) {
 
 // isResultOf reports whether v is result idx of a call to one of the names.
 func isResultOf(v ssa.Value, idx int, names ...string) bool {
-	c, i, ok := callResult(v)
-	return ok && i == idx && isCallTo(c, names...)
+	return xforms(v, func(x ssa.Value) bool {
+		c, i, ok := callResult1(x)
+		return ok && i == idx && isCallTo(c, names...)
+	})
 }
 
 // constOf returns the compile-time constant value of v, if any.
 func constOf(v ssa.Value) (constant.Value, bool) {
-	v = strip(v)
-	if c, ok := v.(*ssa.Const); ok && c.Value != nil {
-		return c.Value, true
-	}
-	return nil, false
+	var out constant.Value
+	ok := xforms(v, func(x ssa.Value) bool {
+		if c, ok := x.(*ssa.Const); ok && c.Value != nil {
+			out = c.Value
+			return true
+		}
+		return false
+	})
+	return out, ok
 }
 
 func constInt(v ssa.Value) (int64, bool) {
@@ -435,7 +455,13 @@ func isNilConst(v ssa.Value) bool {
 // dependencies (operands), looking through phis, loads of local cells (to
 // their stores), closure bindings and, for calls, their arguments. It is a
 // taint-style "derives from" relation. pred identifies sources.
-func flows(v ssa.Value, pred func(ssa.Value) bool) bool {
+func flows(v ssa.Value, pred func(ssa.Value) bool) bool { return flowsX(v, pred, true) }
+
+// flowsLocal is flows restricted to the function of v (for "must not derive
+// from" rules, where following a parameter to every caller proves nothing).
+func flowsLocal(v ssa.Value, pred func(ssa.Value) bool) bool { return flowsX(v, pred, false) }
+
+func flowsX(v ssa.Value, pred func(ssa.Value) bool, cross bool) bool {
 	seen := map[ssa.Value]bool{}
 	var rec func(v ssa.Value, depth int) bool
 	rec = func(v ssa.Value, depth int) bool {
@@ -493,6 +519,14 @@ func flows(v ssa.Value, pred func(ssa.Value) bool) bool {
 				return rec(b, depth+1)
 			}
 			return false
+		case *ssa.Parameter:
+			if !cross {
+				return false
+			}
+			if a := paramSource(x); a != nil {
+				return rec(a, depth+1)
+			}
+			return false
 		case *ssa.Alloc:
 			// address of a local: whatever is stored there (directly, from
 			// closures, or through field/element addresses)
@@ -508,6 +542,18 @@ func flows(v ssa.Value, pred func(ssa.Value) bool) bool {
 			for _, op := range x.Operands(nil) {
 				if op != nil && *op != nil && rec(*op, depth+1) {
 					return true
+				}
+			}
+			// results of a repository helper: whatever its returns yield
+			if call, ok := v.(*ssa.Call); ok && theProg != nil && cross {
+				if callee := staticCallee(call); callee != nil && callee.Blocks != nil && theProg.IsRepoFn(callee) {
+					for _, r := range returnsOf(callee) {
+						for i := range r.Results {
+							if rec(retVal(r, i), depth+1) {
+								return true
+							}
+						}
+					}
 				}
 			}
 		}
@@ -541,6 +587,10 @@ func sameValue(v ssa.Value, pred func(ssa.Value) bool) bool {
 		case *ssa.FreeVar:
 			if b := freeVarBinding(x); b != nil {
 				return rec(b)
+			}
+		default:
+			if n := xstep(v); n != nil {
+				return rec(n)
 			}
 		}
 		return false
@@ -1180,4 +1230,17 @@ func (p *Prog) guardedUp(in ssa.Instruction, mk func(fn *ssa.Function) []Edge, d
 		}
 	}
 	return true, nil, nil
+}
+
+// strictLess: if boolean v means "x < y" (written x < y, y > x, !(x >= y), ...)
+// return x and y.
+func strictLess(v ssa.Value) (x, y ssa.Value, ok bool) {
+	a, pos := normCond(v)
+	switch {
+	case a.Op == token.LSS && pos:
+		return a.X, a.Y, true
+	case a.Op == token.LEQ && !pos:
+		return a.Y, a.X, true
+	}
+	return nil, nil, false
 }
